@@ -228,6 +228,13 @@ def c03(out, a):
             A1 = hess(m, Fc, svc)
             after = fhex(Fc) + ([] if svc is None else fhex(svc))
             P2 = grad(m, Fc, svc)
+            # a caller-supplied output buffer (as the solid bodies pass) that still holds other values gives the same result
+            try:
+                import inspect
+                if "out" in inspect.signature(m["um"].gradient).parameters:
+                    P2 = np.asarray(m["um"].gradient([Fc, svc], out=np.full_like(P1, 7.0))[0], dtype=float)
+            except (TypeError, ValueError):
+                pass
             out.write({"id": rid, "kind": "noalias", "nt": True, "before": before, "after": after, "fresh": fhex(P1), "reused": fhex(P2)})
     kinematics(out, F, rng)
     # mixed (u, p, J) formulations: every returned block is the mixed second derivative (None = 0)
